@@ -2069,6 +2069,26 @@ extern const br_ec_curve_def br_secp521r1;
 extern const br_ec_curve_def br_curve25519;
 
 /*
+ * Check that a multiplier (unsigned big-endian) is not zero. Returned
+ * value is 1 if the multiplier is non-zero, 0 otherwise. This is
+ * constant-time with regard to the multiplier value. The muladd()
+ * functions of the EC implementations use it to report a zero
+ * multiplier as an error: the corresponding product is then the point
+ * at infinity, which their final addition step does not support.
+ */
+static inline uint32_t
+br_ec_multiplier_nonzero(const unsigned char *x, size_t xlen)
+{
+	uint32_t z;
+
+	z = 0;
+	while (xlen -- > 0) {
+		z |= *x ++;
+	}
+	return NEQ(z, 0);
+}
+
+/*
  * Decode some bytes as an i31 integer, with truncation (corresponding
  * to the 'bits2int' operation in RFC 6979). The target ENCODED bit
  * length is provided as last parameter. The resulting value will have
